@@ -19,6 +19,8 @@ def _isinstance_one(interp, v, t):
         k = kind_of(v)
         if n == "object":
             return True
+        if isinstance(v, Opaque) and n in v.attrs.get("isinstance", ()):
+            return True  # an opaque stand-in declared to be of this builtin type (e.g. a text whose characters are not modelled)
         if n == "str":
             return k == STR
         if n == "bytes":
@@ -315,7 +317,13 @@ def m_hasattr(interp, args, kwargs):
     if isinstance(obj, SObj):
         if name in obj.fields:
             return True
-        return interp.pack.find_attr(obj.cls, name) is not None
+        if interp.pack.find_attr(obj.cls, name) is not None:
+            return True
+        if isinstance(obj.fields.get("__hasattr__"), dict) and name in obj.fields["__hasattr__"]:
+            return obj.fields["__hasattr__"][name]
+        if obj.fields.get("__complete__") is True:
+            return False
+        raise Unsupported("hasattr(%s, %r): not declared in the contract (field, or __hasattr__={%r: False})" % (obj.cls, name, name))
     if isinstance(obj, Opaque):
         if name in obj.attrs:
             return True
@@ -323,7 +331,9 @@ def m_hasattr(interp, args, kwargs):
             v = obj.attrs["hasattr"]
             if name in v:
                 return v[name]
-        return ("%s.%s" % (obj.tag, name)) in interp.pack.models
+        if ("%s.%s" % (obj.tag, name)) in interp.pack.models:
+            return True
+        raise Unsupported("hasattr(%s, %r): not declared in the contract (attribute, or hasattr={%r: False})" % (obj.tag, name, name))
     if isinstance(obj, Closure):
         return name in ("__name__", "__code__", "__call__")
     if isinstance(obj, ModuleRef):
@@ -341,10 +351,29 @@ def m_hasattr(interp, args, kwargs):
     raise Unsupported("hasattr(%r, %r)" % (obj, name))
 
 
+_MISSING = object()
+
+
+def declared_absent(obj, name):
+    """The contract says that this object does NOT have the attribute (Opaque: attrs['hasattr'][name] is False; SObj: fields['__hasattr__'])."""
+    if isinstance(obj, SObj) and obj.fields.get("__complete__") is True:
+        return True  # the object was built by running its real constructor: what was not assigned (and is not a class attribute) is absent
+    h = obj.attrs.get("hasattr") if isinstance(obj, Opaque) else obj.fields.get("__hasattr__") if isinstance(obj, SObj) else None
+    return isinstance(h, dict) and h.get(name) is False
+
+
 def m_getattr(interp, args, kwargs):
     obj, name = args[0], args[1]
     if len(args) > 2:
-        return interp.getattr(obj, name, None, default=args[2])
+        v = interp.getattr(obj, name, None, default=_MISSING)
+        if v is _MISSING:
+            # an attribute the contract does not mention is not thereby absent: taking the default silently would hide the branch in
+            # which the real object has it (seeded change C12-code-check-remembered-per-wrapper: getattr(self.func, "__code__", None))
+            if isinstance(obj, (Opaque, SObj)) and isinstance(name, str) and not declared_absent(obj, name):
+                raise Unsupported("getattr(%s, %r, default): the contract does not say whether the object has this attribute (declare it, or hasattr={%r: False})"
+                                  % (getattr(obj, "tag", getattr(obj, "cls", "?")), name, name))
+            return args[2]
+        return v
     return interp.getattr(obj, name, None)
 
 
